@@ -1311,7 +1311,7 @@ def difatcap(pid):
                         continue
                     pr = pr or Prov(f)
                     a = _numeric(pr.operand(st["rv"]["a"]))
-                    if not re.match(r"^Sub\(.*,const:109\)$", a):
+                    if not re.match(r"^(Sub|<impl \w+>::(saturating|wrapping)_sub|ok\(<impl \w+>::checked_sub)\(.*,const:109\)+$", a):
                         continue
                     b = pr.operand(st["rv"]["b"])
                     if st["rv"]["op"].startswith("Sub"):
@@ -2504,7 +2504,7 @@ def seekbound(pid):
                             p_, d_ = ps
                             ok = any(a in ("(Le(%s,Sub(param:self.total_len,%s)))" % (d_, p_), "(Le(%s,Sub(param:self.total_len,%s)))" % (p_, d_), "(Le(cast(%s),Sub(param:self.total_len,%s)))" % (d_, p_)) for a in atoms) or \
                                 any(re.match(r"^\(Le\((cast\()?%s\)?,Sub\(param:self\.total_len,%s\)\)\)$" % (re.escape(d_), re.escape(p_)), a) for a in atoms)
-                    elif re.match(r"^Sub\(|^ok\(<impl u64>::checked_sub\(", alt):
+                    elif re.match(r"^Sub\(|^ok\(<impl u64>::checked_sub\(|^<impl u64>::saturating_sub\(", alt):
                         ok = True       # a difference of two positions within the stream
                     else:
                         ok = any(re.match(r"^\(Le\(%s,param:self\.total_len\)\)$" % re.escape(alt), a) for a in atoms)
